@@ -40,6 +40,7 @@ Queries == << <<"to_dense", 0>>,
               <<"root_decomposition", 3>>,
               <<"root_inv_decomposition", 0>>, <<"root_inv_decomposition", 1>>, <<"root_inv_decomposition", 2>>,
               <<"diagonalization", 0>>, <<"diagonalization", 2>>,              \* method: None, symeig
+              <<"diagonalization", 3>>,                                         \* "lanczos" with a budget of 2 < n, passed positionally
               <<"svd", 0>>, <<"eigh", 0>>, <<"solve", 0>>, <<"logdet", 0>>, <<"inv_quad_logdet", 0>>, <<"diagonal", 0>>,
               <<"sample", 0>>,
               \* inverse root by Lanczos from ONE caller-supplied probe vector (its by-product is cached as the operator's root)
@@ -48,7 +49,7 @@ Queries == << <<"to_dense", 0>>,
 \* (any root is a root and any diagonalization is one, whatever the method; a Cholesky factor has an orientation)
 \* (... except a deliberately truncated Lanczos root, which answers only the query that asked for it)
 SemOk(name, a, b) == IF name = "cholesky" /\ ~DiagLike THEN a = b
-                     ELSE IF name = "root_decomposition" /\ a = 3 THEN b = 3 ELSE TRUE
+                     ELSE IF name \in {"root_decomposition", "diagonalization"} /\ a = 3 THEN b = 3 ELSE TRUE
 \* which cache names a query reads / writes (the public method may differ from the cached name)
 CacheName(q) ==
   CASE q[1] = "cholesky" -> "cholesky"
